@@ -393,7 +393,16 @@ func (c17) Run(t *testing.T, cs Case, trace bool) *Outcome {
 				spec := *step.Spec
 				p := NewProbe(spec, w, out)
 				p.captureRT = true
-				err := p.Register()
+				var err error
+				var panicked any
+				func() {
+					defer func() { panicked = recover() }()
+					err = p.Register()
+				}()
+				if panicked != nil {
+					out.violate("C17/panic", "panic:registration", "registration %d (%s q=%v inputs=%v outputs=%v) panicked: %v\n  %s", i, spec.Name, spec.Q, spec.Inputs, spec.Outputs, panicked, strings.Join(notes, "\n  "))
+					return
+				}
 				why := model.register(&spec)
 				notes = append(notes, fmt.Sprintf("register %s q=%v inputs=%v outputs=%v -> impl: %v, model: %q", spec.Name, spec.Q, spec.Inputs, spec.Outputs, err, why))
 				if (err == nil) != (why == "") {
